@@ -766,6 +766,12 @@ func (r *c11run) verdict(stackDump string) (ev.Outcome, bool) {
 	}
 	switch c.Failure.Kind {
 	case "cut_write", "cut_read":
+		if c.Failure.CutWhere != "" {
+			add("cut_at:" + c.Failure.CutWhere)
+		}
+		if c.Failure.Half {
+			add("cut_half_close")
+		}
 		if r.cutDone.Load() {
 			add("cut_happened")
 		} else {
